@@ -668,82 +668,120 @@ fn check_roots(t: &mut Tally, scratch: &Path) {
     let _ = std::fs::remove_dir_all(&base);
 }
 
-/// Package directories that are symbolic links to directories kept outside the database (alone,
-/// next to a real directory, next to a link to an incomplete directory and a plain file), and a
-/// '+FILE' that is a link to a file whose size the file system reports as 0 although it has
-/// content (procfs): a link to a complete directory is a sub-directory that contains the three
-/// files, and a metadata entry is what reading the file gives.
-fn check_linked(t: &mut Tally, scratch: &Path, variant: usize) {
-    let base = scratch.join(format!("linked{}", variant));
-    let _ = std::fs::remove_dir_all(&base);
+/// Package directories that are symbolic links to directories kept outside the database - alone
+/// (so that the database directory has no sub-directory of its own), next to a real directory,
+/// next to a link to an incomplete directory and a plain file - and a '+FILE' that is a link to
+/// a file whose size the file system reports as 0 although it has content (procfs).
+///
+/// Whether a link to a complete directory *is* a sub-directory is not decided by the statement,
+/// so it may be listed or not - but what is listed is a property of the entry itself ("exactly
+/// the sub-directories that contain ..."), not of its neighbours: one and the same link is
+/// listed in every database it is put into, or in none.  A real complete directory is always
+/// listed, a link to an incomplete one never; whatever is listed has the link's name as its name
+/// and reads its files.
+fn check_linked(t: &mut Tally, scratch: &Path) {
+    type Seen = Vec<(String, String, String, Result<String, String>, Result<String, String>, Result<String, String>)>;
     let fault = |e: std::io::Error| -> ! { mc_core::run::machinery_fault(&format!("cannot build the scratch database: {}", e)) };
-    let db = base.join("db");
-    let store = base.join("store");
-    std::fs::create_dir_all(&db).unwrap_or_else(|e| fault(e));
     let proc_file = Path::new("/proc/sys/kernel/ostype");
     let proc_text = std::fs::read_to_string(proc_file).ok().filter(|s| !s.is_empty());
-    let complete = |dir: &Path, name: &str| {
-        std::fs::create_dir_all(dir).unwrap_or_else(|e| fault(e));
-        for f in MANDATORY {
-            std::fs::write(dir.join(f), content(name, f)).unwrap_or_else(|e| fault(e));
+    let proc_live = proc_text.is_some() && std::fs::metadata(proc_file).map(|m| m.len() == 0).unwrap_or(false);
+    t.outcome(if proc_live { "linked/procfs entry: size 0, content read" } else { "linked/no procfs file here (that clause is not exercised)" });
+    let mut listed: Vec<(usize, Vec<String>)> = vec![];
+    for variant in 0..8usize {
+        let base = scratch.join(format!("linked{}", variant));
+        let _ = std::fs::remove_dir_all(&base);
+        let db = base.join("db");
+        let store = base.join("store");
+        std::fs::create_dir_all(&db).unwrap_or_else(|e| fault(e));
+        let complete = |dir: &Path, name: &str| {
+            std::fs::create_dir_all(dir).unwrap_or_else(|e| fault(e));
+            for f in MANDATORY {
+                std::fs::write(dir.join(f), content(name, f)).unwrap_or_else(|e| fault(e));
+            }
+            if proc_text.is_some() {
+                std::os::unix::fs::symlink(proc_file, dir.join("+BUILD_INFO")).unwrap_or_else(|e| fault(e));
+            }
+            // a genuinely empty optional file
+            std::fs::write(dir.join("+PRESERVE"), b"").unwrap_or_else(|e| fault(e));
+        };
+        // variant bits: 1 = a second link, 2 = a real complete directory as well, 4 = a link to an
+        // incomplete directory and a plain file
+        let mut links: Vec<&str> = vec!["lnk-1.0"];
+        complete(&store.join("one"), "lnk-1.0");
+        std::os::unix::fs::symlink(store.join("one"), db.join("lnk-1.0")).unwrap_or_else(|e| fault(e));
+        if variant & 1 == 1 {
+            complete(&store.join("two"), "other-lnk-2.0nb1");
+            std::os::unix::fs::symlink("../store/two", db.join("other-lnk-2.0nb1")).unwrap_or_else(|e| fault(e));
+            links.push("other-lnk-2.0nb1");
         }
-        if proc_text.is_some() {
-            std::os::unix::fs::symlink(proc_file, dir.join("+BUILD_INFO")).unwrap_or_else(|e| fault(e));
+        if variant & 2 == 2 {
+            complete(&db.join("real-3.0"), "real-3.0");
         }
-        // a genuinely empty optional file
-        std::fs::write(dir.join("+PRESERVE"), b"").unwrap_or_else(|e| fault(e));
-    };
-    // variant bits: 1 = a second link, 2 = a real complete directory as well, 4 = a link to an
-    // incomplete directory and a plain file
-    let mut want: Vec<String> = vec![];
-    complete(&store.join("one"), "lnk-1.0");
-    std::os::unix::fs::symlink(store.join("one"), db.join("lnk-1.0")).unwrap_or_else(|e| fault(e));
-    want.push("lnk-1.0".into());
-    if variant & 1 == 1 {
-        complete(&store.join("two"), "other-lnk-2.0nb1");
-        std::os::unix::fs::symlink("../store/two", db.join("other-lnk-2.0nb1")).unwrap_or_else(|e| fault(e));
-        want.push("other-lnk-2.0nb1".into());
-    }
-    if variant & 2 == 2 {
-        complete(&db.join("real-3.0"), "real-3.0");
-        want.push("real-3.0".into());
-    }
-    if variant & 4 == 4 {
-        std::fs::create_dir_all(store.join("half")).unwrap_or_else(|e| fault(e));
-        std::fs::write(store.join("half").join("+COMMENT"), b"c\n").unwrap_or_else(|e| fault(e));
-        std::os::unix::fs::symlink(store.join("half"), db.join("half-1.0")).unwrap_or_else(|e| fault(e));
-        std::fs::write(db.join("pkgdb.byfile.db"), b"db").unwrap_or_else(|e| fault(e));
-    }
-    want.sort();
-    t.evals += 1;
-    t.validated += 1;
-    let got = guard(|| {
-        let mut seen: Vec<(String, Result<String, String>, Result<String, String>, Result<String, String>)> = vec![];
-        for p in PkgDB::open(&db).map_err(|e| e.to_string())?.flatten() {
-            let rd = |e: MetadataEntry| p.read_metadata(e).map_err(|e| e.kind().to_string());
-            seen.push((p.pkgname().clone(), rd(MetadataEntry::Desc), rd(MetadataEntry::BuildInfo), rd(MetadataEntry::Preserve)));
+        if variant & 4 == 4 {
+            std::fs::create_dir_all(store.join("half")).unwrap_or_else(|e| fault(e));
+            std::fs::write(store.join("half").join("+COMMENT"), b"c\n").unwrap_or_else(|e| fault(e));
+            std::os::unix::fs::symlink(store.join("half"), db.join("half-1.0")).unwrap_or_else(|e| fault(e));
+            std::fs::write(db.join("pkgdb.byfile.db"), b"db").unwrap_or_else(|e| fault(e));
         }
-        seen.sort();
-        Ok::<_, String>(seen)
-    });
-    let wanted: Vec<(String, Result<String, String>, Option<String>, Result<String, String>)> = want.iter().map(|n| (n.clone(), Ok(content(n, "+DESC")), proc_text.clone(), Ok(String::new()))).collect();
-    let ok = match &got {
-        Ok(Ok(seen)) => {
-            seen.len() == wanted.len()
-                && seen.iter().zip(wanted.iter()).all(|(s, w)| s.0 == w.0 && s.1 == w.1 && s.3 == w.3 && match &w.2 {
-                    Some(text) => s.2.as_ref() == Ok(text),
-                    None => true,
-                })
+        // the harness itself must be able to read through its links (a scratch file system that
+        // does not follow them says nothing about the library)
+        for l in &links {
+            if std::fs::read_to_string(db.join(l).join("+DESC")).ok() != Some(content(l, "+DESC")) {
+                mc_core::run::machinery_fault("the scratch file system does not follow symbolic links");
+            }
         }
-        _ => false,
-    };
-    if ok {
-        t.nontrivial += 1;
-        t.outcome(if proc_text.is_some() { "linked/listed-and-read (with a procfs entry)" } else { "linked/listed-and-read" });
-    } else {
-        t.violation(Violation::new("linked", json!({"variant": variant, "links": want}), json!(format!("{:?}", wanted)), json!(format!("{:?}", got)), "symbolic links to complete package directories are package directories; a metadata entry is what reading its '+FILE' gives (also when the file system reports its size as 0)"));
+        t.evals += 1;
+        t.validated += 1;
+        t.states += 1;
+        t.transitions += 1;
+        let got = guard(|| {
+            let mut seen: Seen = vec![];
+            for p in PkgDB::open(&db).map_err(|e| e.to_string())?.flatten() {
+                let rd = |e: MetadataEntry| p.read_metadata(e).map_err(|e| e.kind().to_string());
+                seen.push((p.pkgname().clone(), p.pkgbase().clone(), p.pkgversion().clone(), rd(MetadataEntry::Desc), rd(MetadataEntry::BuildInfo), rd(MetadataEntry::Preserve)));
+            }
+            seen.sort();
+            Ok::<_, String>(seen)
+        });
+        let _ = std::fs::remove_dir_all(&base);
+        let case = json!({"variant": variant, "links": links, "real_directory": variant & 2 == 2, "link_to_incomplete_directory": variant & 4 == 4});
+        let seen = match got {
+            Ok(Ok(seen)) => seen,
+            other => {
+                t.violation(Violation::new("linked", case, json!("iteration succeeds"), json!(format!("{:?}", other)), "iterating a database with linked package directories failed"));
+                return;
+            }
+        };
+        // every listed entry: admissible, named after the entry, split at the last '-', readable
+        let mut names: Vec<String> = vec![];
+        for (name, b, v, desc, info, preserve) in &seen {
+            let admissible = links.contains(&name.as_str()) || (variant & 2 == 2 && name == "real-3.0");
+            let i = name.rfind('-').unwrap_or(0);
+            let parts_ok = *b == name[..i] && *v == name[i + 1..];
+            let reads_ok = *desc == Ok(content(name, "+DESC")) && *preserve == Ok(String::new()) && proc_text.as_ref().map_or(true, |x| info.as_ref() == Ok(x));
+            if !admissible || !parts_ok || !reads_ok || names.contains(name) {
+                t.violation(Violation::new("linked", case, json!("only complete directories (real, or - if links count - linked), each once, named after the entry, split at the last '-', every '+FILE' read as the file reads (also a procfs file of reported size 0, and an empty one)"), json!(format!("{:?}", seen)), "a listed package is wrong"));
+                return;
+            }
+            names.push(name.clone());
+        }
+        if variant & 2 == 2 && !names.iter().any(|n| n == "real-3.0") {
+            t.violation(Violation::new("linked", case, json!("real-3.0 is listed"), json!(format!("{:?}", names)), "a complete real directory is not listed"));
+            return;
+        }
+        listed.push((variant, names));
     }
-    let _ = std::fs::remove_dir_all(&base);
+    // one and the same link: listed in every database that holds it, or in none
+    for link in ["lnk-1.0", "other-lnk-2.0nb1"] {
+        let holders: Vec<&(usize, Vec<String>)> = listed.iter().filter(|(v, _)| link == "lnk-1.0" || v & 1 == 1).collect();
+        let yes: Vec<usize> = holders.iter().filter(|(_, n)| n.iter().any(|x| x == link)).map(|(v, _)| *v).collect();
+        if !yes.is_empty() && yes.len() != holders.len() {
+            t.violation(Violation::new("linked", json!({"link": link, "databases": holders.iter().map(|(v, _)| *v).collect::<Vec<_>>()}), json!("listed in all of them or in none"), json!({"listed_in": yes}), "whether an entry is a package depends on the entry, not on its neighbours (a database whose only entries are links, one with a real directory next to them, one with a plain file)"));
+            return;
+        }
+        t.outcome(if yes.is_empty() { "linked/links are not listed (consistently)" } else { "linked/links are listed (consistently)" });
+    }
+    t.nontrivial += 8;
 }
 
 fn tables(t: &mut Tally) {
@@ -849,7 +887,7 @@ fn replay(run: &Run, doc: &Value) -> Option<Violation> {
             check_layout(&mut t, &run.scratch_dir(), 0, &l);
         }
         Some("roots") => check_roots(&mut t, &run.scratch_dir()),
-        Some("linked") => check_linked(&mut t, &run.scratch_dir(), c["variant"].as_u64().unwrap_or(0) as usize),
+        Some("linked") => check_linked(&mut t, &run.scratch_dir()),
         Some("metadata-history") => {
             let calls: Vec<String> = c["calls"].as_array().map(|a| a.iter().filter_map(|x| x.as_str().map(|s| s.to_string())).collect()).unwrap_or_default();
             metadata_histories_from(&mut t, calls.len(), Some(&calls));
@@ -980,12 +1018,8 @@ fn main() {
     let mut t = Tally::new();
     metadata_histories(&mut t, run.pick(3, 4));
     check_roots(&mut t, &scratch);
-    run.bound("linked package directories: 8 databases whose package directories are symbolic links to directories kept elsewhere (one or two links, with and without a real directory, a link to an incomplete directory and a plain file), each with a '+BUILD_INFO' that is a link to a procfs file (size reported as 0) where /proc exists, and an empty '+PRESERVE'");
-    for variant in 0..8 {
-        t.states += 1;
-        t.transitions += 1;
-        check_linked(&mut t, &scratch, variant);
-    }
+    run.bound("linked package directories: 8 databases whose package directories are symbolic links to directories kept elsewhere (one or two links, with and without a real directory, a link to an incomplete directory and a plain file): whether links count is left open, but the same link must be listed in all of them or in none; each directory with a '+BUILD_INFO' that is a link to a procfs file (size reported as 0) where /proc exists, and an empty '+PRESERVE'");
+    check_linked(&mut t, &scratch);
     tables(&mut t);
     run.merge(t);
     run.finish();
